@@ -1,8 +1,9 @@
 (* C04, stated of the SOURCE AS IT IS NOW: count, is_root, front / first, back / last, get(usize), len, is_empty,
    with_trailing_token, with_leading_token, concat, to_buf and PointerBuf::from_tokens are re-translated from
    src/pointer.rs and src/pointer/slice.rs by tools/rs2v.py on every run (Generated/ScanPtrOps.v, ScanSlice.v,
-   ScanBuf.v, ScanPtrBuild.v).  (components() / IntoIterator wrap the Tokens iterator, which is a primitive of the
-   translation: hand model + differential tie only.) *)
+   ScanBuf.v, ScanPtrBuild.v).  Callers of `p.tokens()` use the primitive [str_tokens]; the iterator
+   behind it (Pointer::tokens, Tokens::new / next) and Components (From<&Pointer>, next) are re-translated as well and shown to
+   produce exactly that list (last part of this file); std's str::split(char) and Iterator::next on it stay primitive. *)
 From JP Require Import Bytes Spec GenPrelude Model.Token Model.Pointer Generated.ScanTypes Generated.ScanToken
   Generated.ScanPtrOps Generated.ScanSlice Generated.ScanBuf Generated.ScanPtrBuild
   Proofs.GenEquivBase Proofs.GenEquivPtrOps Proofs.GenEquivBuf Proofs.GenEquivPtrBuild.
@@ -45,3 +46,29 @@ Example C04_src_examples :
   gen_Pointer_concat [SLASH; 97] [SLASH; 98] = Ret [SLASH; 97; SLASH; 98] /\
   gen_Pointer_with_leading_token [SLASH; 97] (mk_Token (Cow_Borrowed [98])) = Ret [SLASH; 98; SLASH; 97].
 Proof. vm_compute. repeat split. Qed.
+
+(* ==== the iterator itself =================================================================================================
+   Everywhere else `p.tokens()` is the primitive [str_tokens]; here its SOURCE is tied down: Pointer::tokens and
+   Tokens::next / Tokens::new are re-translated on every run, and iterating until None yields exactly the tokens of the
+   text, each borrowed, in order; the exhausted iterator stays exhausted. *)
+Theorem C04_src_tokens_iterator_is_token_list : forall p : str,
+  exists t, gen_Pointer_tokens p = Ret t /\
+            drain_tokens (S (length (str_tokens p))) t = Ret (map tokB (str_tokens p)) /\
+            gen_Tokens_next (mk_Tokens []) = Ret (mk_Tokens [], None).
+Proof. exact gen_tokens_iterates. Qed.
+Print Assumptions C04_src_tokens_iterator_is_token_list.
+
+(* "/a//b~1" iterates as a, "", b~1; the root pointer has no token *)
+Example C04_src_tokens_example :
+  (exists t, gen_Pointer_tokens [47;97;47;47;98;126;49] = Ret t /\
+             drain_tokens 9 t = Ret [tokB [97]; tokB []; tokB [98;126;49]]) /\
+  (exists t, gen_Pointer_tokens [] = Ret t /\ drain_tokens 1 t = Ret []).
+Proof. split; eexists; split; vm_compute; reflexivity. Qed.
+
+(* components(): Root first, then exactly the tokens, in order (src/component.rs, re-translated) *)
+Theorem C04_src_components_iterator : forall p : str,
+  exists c, gen_Components_from p = Ret c /\
+    drain_components (S (S (length (str_tokens p)))) c =
+    Ret (Component_Root :: map (fun t => Component_Token (tokB t)) (str_tokens p)).
+Proof. exact gen_components_iterates. Qed.
+Print Assumptions C04_src_components_iterator.
